@@ -78,8 +78,27 @@ Definition url_hostname (h : str) : str :=
    canonical text form the harness produces (net.IP.String()). *)
 Record leaf := { lf_dns : list str; lf_ips : list str; lf_nb : Z; lf_na : Z; lf_chain_ok : bool }.
 
+(* crypto/x509 matchHostnames: ASCII case folded; a pattern whose FIRST label is "*" matches any one
+   non-empty label there, the other labels must be equal, the label counts must agree *)
+Definition DOT : N := 46.
+Definition STAR : N := 42.
+Fixpoint labels_eq (p h : list str) : bool :=
+  match p, h with
+  | [], [] => true
+  | a :: p', c :: h' => eq_fold a c && labels_eq p' h'
+  | _, _ => false
+  end.
+Definition wildcard_match (pattern host : str) : bool :=
+  match split_byte DOT pattern, split_byte DOT host with
+  | p0 :: prest, h0 :: hrest =>
+      str_eqb p0 [STAR] && negb (match h0 with [] => true | _ => false end) &&
+      negb (match prest with [] => true | _ => false end) && labels_eq prest hrest
+  | _, _ => false
+  end.
+Definition dns_match (host pattern : str) : bool := eq_fold host pattern || wildcard_match pattern host.
+
 Definition name_matches (c : leaf) (name : str) (is_ip : bool) : bool :=
-  if is_ip then existsb (str_eqb name) (lf_ips c) else existsb (eq_fold name) (lf_dns c).
+  if is_ip then existsb (str_eqb name) (lf_ips c) else existsb (dns_match name) (lf_dns c).
 
 (* what x509.Certificate.Verify{DNSName: name, Roots: CA} at time t decides (no wildcards, no constraints) *)
 Definition leaf_valid (c : leaf) (name : str) (is_ip : bool) (t : Z) : bool :=
